@@ -424,8 +424,10 @@ def _r4(ctx):
     else:
         ctx.violated(rh, rh.node, "range histogram is not computed from 2*amplitude", text="range_histogram input")
     # level selection by name in rebin_histogram
-    f = prog.func("pylife.utils.histogram:rebin_histogram")
-    sel = [n for n in ast.walk(f.node) if isinstance(n, ast.Subscript) and isinstance(n.value, ast.Attribute) and
+    from ..inline import inlined as _inl
+    f = _inl(prog, prog.func("pylife.utils.histogram:rebin_histogram"))       # the selection may sit in a small closure
+    body_only = [st_ for st_ in f.node.body if not isinstance(st_, (ast.FunctionDef, ast.ClassDef))]
+    sel = [n for st_ in body_only for n in ast.walk(st_) if isinstance(n, ast.Subscript) and isinstance(n.value, ast.Attribute) and
            n.value.attr == "levels" and isinstance(n.ctx, ast.Load)]
     if len(sel) != 1:
         raise AnalysisError("rebin_histogram: selection of the level binning not found")
@@ -439,6 +441,8 @@ def _r4(ctx):
                         (isinstance(loop[0].target, ast.Tuple) and any(isinstance(t, ast.Name) and t.id == name_var for t in loop[0].target.elts)))
     if by_name and iter_ok:
         ctx.holds(f, sel[0], "binning of a level = %s.levels[%s.names.index(level name)]: selected by name" % (root, root))
+    elif by_name:
+        raise AnalysisError("rebin_histogram: the name the level binning is looked up with is not the loop's level name")
     else:
         ctx.violated(f, sel[0], "the binning of a histogram level is selected as %s, i.e. by a position that belongs to another "
                      "object, not by the level's name: histogram and binning may list their levels in different orders" % norm_text(sel[0]))
@@ -588,18 +592,15 @@ def _r1(ctx):
     v = prog.lookup_method(lc, "_validate")
     # roles from the frame that is built: {'from': <local>, 'to': <local>}
     d0 = [n for n in ast.walk(v.node) if isinstance(n, ast.Dict) and {const_value(k) for k in n.keys} == {"from", "to"}]
-    if len(d0) != 1 or not all(isinstance(x, ast.Name) for x in d0[0].values):
+    if len(d0) != 1:
         raise AnalysisError("LoadCollective._validate: range/mean conversion not found")
-    role = {const_value(k): x.id for k, x in zip(d0[0].keys, d0[0].values)}
-    defs = {}
-    for s in walk_function(v.node):
-        if isinstance(s, ast.Assign) and isinstance(s.targets[0], ast.Name):
-            if s.targets[0].id == role["from"]:
-                defs["fr"] = s
-            elif s.targets[0].id == role["to"]:
-                defs["to"] = s
-    if set(defs) != {"fr", "to"}:
-        raise AnalysisError("LoadCollective._validate: range/mean conversion not found")
+    from ..astutil import inline_single_defs as _isd
+    vals_ = {const_value(k): _isd(v.node, x) for k, x in zip(d0[0].keys, d0[0].values)}      # temporaries removed
+
+    class _V:                                      # the two converted columns as expressions in the given columns
+        def __init__(self, value):
+            self.value = value
+    defs = {"fr": _V(vals_["from"]), "to": _V(vals_["to"])}
 
     def leaf_v(x):
         if isinstance(x, ast.Subscript) and is_self_attr(x.value, "_obj") and const_value(x.slice) in ("range", "mean"):
